@@ -26,6 +26,21 @@ pub fn free_addr() -> SocketAddr {
     l.local_addr().expect("addr")
 }
 
+/// An RPC server on a free loopback port.  Picking a free port and binding it are two steps; another process on the machine
+/// (a parallel worker of this harness, any other test run) can take the port in between, so the pair is retried.
+pub async fn listen_free() -> (SocketAddr, Server) {
+    let mut last = None;
+    for _ in 0..50 {
+        let addr = free_addr();
+        match Server::listen(addr).await {
+            Ok(s) => return (addr, s),
+            Err(e) => last = Some(e),
+        }
+        tokio::time::sleep(std::time::Duration::from_millis(20)).await;
+    }
+    panic!("no loopback port could be bound: {:?}", last);
+}
+
 // ---------------------------------------------------------------- message types
 
 #[repr(C)]
@@ -236,8 +251,7 @@ impl RpcDomain {
 
     fn server(&mut self) -> &Server {
         if self.server.is_none() {
-            let addr = free_addr();
-            let srv = runtime().block_on(Server::listen(addr)).expect("listen");
+            let (addr, srv) = runtime().block_on(listen_free());
             srv.add_service(EchoSvc);
             self.addr = addr;
             self.server = Some(srv);
